@@ -110,9 +110,16 @@ func decodeParamFilter(el *paramFilter) (*ParamFilter, error) {
 		pf.IsNotDefined = true
 	}
 	if el.TextMatch != nil {
-		pf.TextMatch = &TextMatch{Text: el.TextMatch.Text}
+		pf.TextMatch = decodeTextMatch(el.TextMatch)
 	}
 	return pf, nil
+}
+
+func decodeTextMatch(el *textMatch) *TextMatch {
+	return &TextMatch{
+		Text:            el.Text,
+		NegateCondition: bool(el.NegateCondition),
+	}
 }
 
 func decodePropFilter(el *propFilter) (*PropFilter, error) {
@@ -124,7 +131,7 @@ func decodePropFilter(el *propFilter) (*PropFilter, error) {
 		pf.IsNotDefined = true
 	}
 	if el.TextMatch != nil {
-		pf.TextMatch = &TextMatch{Text: el.TextMatch.Text}
+		pf.TextMatch = decodeTextMatch(el.TextMatch)
 	}
 	if el.TimeRange != nil {
 		pf.Start = time.Time(el.TimeRange.Start)
@@ -181,6 +188,7 @@ func decodeComp(comp *comp) (*CalendarCompRequest, error) {
 	}
 
 	req := &CalendarCompRequest{
+		Name:     comp.Name,
 		AllProps: comp.Allprop != nil,
 		AllComps: comp.Allcomp != nil,
 	}
@@ -198,13 +206,26 @@ func decodeComp(comp *comp) (*CalendarCompRequest, error) {
 }
 
 func decodeCalendarDataReq(calendarData *calendarDataReq) (*CalendarCompRequest, error) {
+	var req *CalendarCompRequest
 	if calendarData.Comp == nil {
-		return &CalendarCompRequest{
+		req = &CalendarCompRequest{
 			AllProps: true,
 			AllComps: true,
-		}, nil
+		}
+	} else {
+		var err error
+		req, err = decodeComp(calendarData.Comp)
+		if err != nil {
+			return nil, err
+		}
 	}
-	return decodeComp(calendarData.Comp)
+	if calendarData.Expand != nil {
+		req.Expand = &CalendarExpandRequest{
+			Start: time.Time(calendarData.Expand.Start),
+			End:   time.Time(calendarData.Expand.End),
+		}
+	}
+	return req, nil
 }
 
 func (h *Handler) handleQuery(r *http.Request, w http.ResponseWriter, query *calendarQuery) error {
